@@ -256,13 +256,19 @@ def check_transport(tree):
             or [_norm(s) for s in t.handlers[0].body] != ["continue"] or t.orelse or t.finalbody:
         raise Shape("Transport.run: read_message / NeedRekeyException handling has changed")
     ski = _fn(T, "_send_kex_init")
-    if "self.in_kex = True" not in [_norm(s) for s in ski.body]:
-        raise Shape("_send_kex_init does not set in_kex")
+    # in_kex is set either at top level or (after the C11 repair) inside the clear_to_send_lock section
+    if [_norm(s) for s in _stmts(ski) if isinstance(s, ast.Assign) and _norm(s).startswith("self.in_kex")] \
+            != ["self.in_kex = True"]:
+        raise Shape("_send_kex_init does not set in_kex exactly once, unconditionally")
+    for s in ast.walk(ski):
+        if isinstance(s, (ast.If, ast.While, ast.For)) and any(
+                isinstance(a, ast.Assign) and _norm(a).startswith("self.in_kex") for a in ast.walk(s)):
+            raise Shape("_send_kex_init sets in_kex conditionally")
     if _norm(ski.body[-1]) != "self._send_message(m)":
         raise Shape("_send_kex_init does not end with _send_message(m)")
     for name in ("_activate_outbound", "_parse_newkeys"):
         fn = _fn(T, name)
-        got = [_norm(s) for s in fn.body if isinstance(s, ast.If) and "need_rekey" in _norm(s.test)]
+        got = [_norm(s) for s in _stmts(fn) if isinstance(s, ast.If) and "need_rekey" in _norm(s.test)]
         if got != ["if not self.packetizer.need_rekey(): self.in_kex = False"]:
             raise Shape("%s: in_kex release is %r" % (name, got))
         w_in_kex = [_norm(s) for s in _stmts(fn) if isinstance(s, ast.Assign) and _norm(s).startswith("self.in_kex")]
